@@ -35,6 +35,9 @@ CHECKS = {
  "C11": dict(cat="exploration", technique="kernel output vs exact rational closed-form monomial integrals (enumerated cells x degrees x schemes) + oracle for rule mixtures with discrimination test",
    text="For every cell type and requested degree (0..30 thorough; 9 degrees quick) one kernel with the monomial exponents as constants is executed for several monomials of the maximal admissible degree on random rational affine cells and compared with exact closed forms (arity 0/1, exterior facets, GLL/Gauss-Jacobi); polynomial forms without metadata and the vertex scheme likewise; rule mixtures and quadrature elements are compared with the oracle applying each rule to its own integrand.",
    note="Closed forms are independent of UFL/basix quadrature (exact rational polynomial algebra). Enumerated sub-space is exhaustive in (cell, degree) only; monomials are sampled.", ref="3/C11"),
+ "C12": dict(cat="exploration", technique="byte comparison of generator output across fresh processes with varied PYTHONHASHSEED and process histories",
+   text="Recipes covering all integral types, mixed elements, several forms per module and expressions, for the C and numba backends, are generated in fresh processes under hash seeds {0,1,2,3,random} and histories {none, unrelated objects first, other forms compiled first, compiled twice, built early}; all outputs must be byte-identical to the baseline; a difference is classified by mechanism from the line diff.",
+   note="Three genuine defects found and fixed in /repo (comment set order, mesh-id in Jacobian names, FE numbering from a set).", ref="3/C12"),
 }
 NA_REASON = "check not built yet in this round (runtime monitoring applies; see DESIGN.md section 3)"
 
